@@ -11,7 +11,7 @@ HERE = os.path.dirname(os.path.abspath(__file__))
 VERIF = os.path.dirname(os.path.dirname(HERE))
 REPO = os.environ.get("LTV_REPO", "/repo")
 SRC = os.path.join(REPO, "src")
-LEAN = os.path.join(VERIF, "lean")
+LEAN = os.environ.get("LTV_LEAN") or os.path.join(VERIF, "lean")
 CACHE = os.path.join(VERIF, ".cache")
 EVID = os.path.join(VERIF, "evidence")
 REPLAY = os.path.join(EVID, "replay")
